@@ -15,6 +15,7 @@
 -/
 import RdfModel.Proofs.C16TtlDocOErase
 import RdfModel.Proofs.C16TtlDocOInv
+import RdfModel.Proofs.C16TtlDocOErr
 import RdfModel.Gen.TtlTables
 namespace RdfModel.C16TtlDocO
 open RdfModel RdfModel.TW RdfModel.NQO RdfModel.TtlDoc RdfModel.TtlDocO
@@ -101,7 +102,7 @@ theorem doc_commit_discipline_text (C : CfgO) (e : End) (base : Option (List Nat
 
 /-- The hypothesis is satisfiable by a non-trivial run: two statements, the second in a graph block,
     read by two `Next()` calls of the TriG configuration over the regenerated tables. -/
-example : ∃ st, stepsO ⟨true, Gen.trig, fun _ r => some r, fun _ => false, fun _ => false⟩ .eof 2
+example : ∃ st, stepsO ⟨true, Gen.trig, fun _ r => some r, fun _ => false, fun _ => false, false⟩ .eof 2
     (initO true none [] ((asc "<a> <b> <c> . <g> { <a> <b> <c> }").map (fun c => (c, 1)))) = some st ∧
     st.stmts.length = 1 := by
   refine ⟨_, rfl, ?_⟩
@@ -160,5 +161,69 @@ theorem range_offsets_inside (cols : List Nat → Nat) (init : Offset) {inp : Li
   · rw [Proofs.C16.histOffset_shift cols init r.1, Proofs.C16.histOffset_shift cols init r.2]
   · intro hc hs
     exact Proofs.C16.histOffset_simple hc init r.2 hs
+
+/-- The hypotheses of `range_offsets_inside` are met by the ranges `doc_ranges_inside` talks about, and
+    such ranges exist: the object of `<a> <b> <c> .` carries one (capture on). -/
+example : ((runO ⟨false, Gen.turtle, fun _ r => some r, fun _ => false, fun _ => false, false⟩ .eof true none []
+    ((asc "<a> <b> <c> .").map (fun c => (c, 1)))).stmts.map (fun m => m.rg.o.isSome)) = [true] := by decide
+
+/-! ## 4. Offsets reported with errors lie inside the document; byte accounting (capture on AND off)
+
+`EOff.bound` (Props/C16Defs.lean): the byte position an error offset refers to, relative to the start of
+the input (for a range: its larger end; 0 when the error carries no offset).  Whatever the run ends with —
+an error raised by the statement layer itself (`newOffsetError` with its `readUncommitted` / `readIgnored`
+arguments, including the sites where Go hands the rune back first and the capture-off offset is short by
+the rune's size), by a token producer, or a resolution / unknown-prefix error carrying the token's
+range — the position is at most the length of the document.  For the concrete value the API shows
+(`evalEOff`): a bare byte offset (capture off) is ≤ the document length; a text offset / range (capture on)
+has initial byte ≤ byte ≤ initial byte + document length.  The invariant behind it (`byte_accounting`):
+after any number of `Next()` calls the rune buffer's byte offset plus the bytes still unread is the
+document length, and the writer holds at most what the buffer has handed out. -/
+
+theorem doc_error_offset_inside (C : CfgO) (e : End) (capture : Bool) (base : Option (List Nat))
+    (prefixes : List (List Nat × List Nat)) (inp : List RP) :
+    C16.EOff.bound (runO C e capture base prefixes inp).eoff ≤ size inp :=
+  Proofs.C16TtlDocO.runLoopO_B C e (size inp) _ _ (Proofs.C16TtlDocO.initO_B capture base prefixes inp)
+
+theorem doc_error_position_inside (C : CfgO) (e : End) (capture : Bool) (base : Option (List Nat))
+    (prefixes : List (List Nat × List Nat)) (inp : List RP) (cols : List Nat → Nat) (init : Offset) :
+    C16.ErrInside init (size inp) (evalEOff cols init (runO C e capture base prefixes inp).eoff) :=
+  Proofs.C16Ttl.errInside_of_bound cols init _ _ (doc_error_offset_inside C e capture base prefixes inp)
+
+theorem byte_accounting (C : CfgO) (e : End) (capture : Bool) (base : Option (List Nat))
+    (prefixes : List (List Nat × List Nat)) (inp : List RP) : ∀ (n : Nat) (st st' : StO),
+    Proofs.C16TtlDocO.BInv (size inp) st → stepsO C e n st = some st' →
+    st'.s.bo + size st'.inp = size inp ∧ (∀ h, st'.s.doc = some h → size (histRunes h) ≤ st'.s.bo)
+  | 0, st, st', h, hs => by
+    simp only [stepsO, Option.some.injEq] at hs
+    subst hs
+    exact ⟨h.1, fun d hd => by have := h.2.1 d hd; omega⟩
+  | n + 1, st, st', h, hs => by
+    simp only [stepsO] at hs
+    have hn := Proofs.C16TtlDocO.nextO_B C e (size inp) st h
+    cases hq : nextO C e st with
+    | yes st1 => rw [hq] at hs hn; exact byte_accounting C e capture base prefixes inp n st1 st' hn hs
+    | no st1 => rw [hq] at hs hn; exact byte_accounting C e capture base prefixes inp n st1 st' hn hs
+    | panic => rw [hq] at hs; cases hs
+    | outOfFuel => rw [hq] at hs; cases hs
+
+/-! ### Defect D45 (patch c16d-1), as a fact about the model
+
+`<s> .` (Turtle, capture off): the `.` at byte 4 is not a predicate.  `reader_scan_PredicateObjectList` hands
+it back, `…_Required` then reports it with the rune as `readIgnored`: before the patch (`dbl = true`) the
+byte offset is 3 — short by the size of the rune (for `[]‰` Go reports -1; the model truncates at 0) —
+after the patch 4, the start of the offending rune.  Both are "inside the document" in the sense of
+`doc_error_offset_inside`; only the repaired value is the position of the rune. -/
+
+theorem handback_offset_short_legacy :
+    C16.EOff.bound (runO ⟨false, Gen.turtle, fun _ r => some r, fun _ => false, fun _ => false, true⟩ .eof false none []
+      ((asc "<s> .").map (fun c => (c, 1)))).eoff = 3 ∧
+    C16.EOff.bound (runO ⟨false, Gen.turtle, fun _ r => some r, fun _ => false, fun _ => false, false⟩ .eof false none []
+      ((asc "<s> .").map (fun c => (c, 1)))).eoff = 4 := by decide
+
+/-- Capture off: no statement carries a range (there is no writer to produce one). -/
+example : (runO ⟨false, Gen.turtle, fun _ r => some r, fun _ => false, fun _ => false, false⟩ .eof false none []
+    ((asc "<a> <b> <c> , [ <p> ( 1 ) ] .").map (fun c => (c, 1)))).stmts.all
+      (fun m => m.rg.s.isNone && m.rg.p.isNone && m.rg.o.isNone && m.rg.g.isNone) = true := by decide
 
 end RdfModel.C16TtlDocO
